@@ -19,7 +19,16 @@ Sub-oracles
   vectors, assembly lists, component attributes) are unchanged by construction; a custom isotopic shared by several users gives
   every unmodified user exactly the written composition even when an earlier user also received a material modification;
 * refusal: planted inconsistencies (unknown specifier, overlapping solids, duplicate names, unequal list lengths, missing
-  nuclide flag ...) must raise.
+  nuclide flag ...) must raise; a refusal by an exception armi raised about the input (InputError / ValueError / yamlize error / the
+  ArithmeticError of the negative-area check / a KeyError with a message) is told apart from a document that merely died in a failing
+  operation (counted as `invalid.refused-by-crash/<kind>/<ExcType>`; AttributeError / TypeError / IndexError ... are violations);
+* geometry of the built grids (core grid and every block pin grid a `grid name` section describes): grid class, geometry type,
+  symmetry (domain, boundary, through-centre) against the meaning of the symmetry string, hex orientation (flats / corners up), hex pitch,
+  centres of off-axis cells and of every assembly against the closed forms read off the HexGrid / CartesianGrid docstrings, Cartesian
+  steps = lattice pitch and the position of cell (0,0) (odd-by-odd through the centre, even-by-even half a cell off), theta-RZ bounds;
+* component area: getComponentArea(cold=True) against the elementary-geometry formula of the shape evaluated on the written dimensions
+  (links followed in the document, lattice multiplicities counted from the map), for every shape class;
+* shape probes: every component shape class a blueprint can name is built from text in a small core of its own.
 """
 import io
 import math
@@ -28,14 +37,23 @@ import random
 PROP = "C18"
 LEVEL = "exploration"
 RULE = (
-    "generated blueprint documents of three families (hex flats-up third/full and corners-up full with pin-type blocks, optional pin "
-    "lattices, material modifications incl. class1/class2 blending, custom isotopics (also one named vector shared by several designs, an "
-    "earlier user modified, a later one not), explicit flags, expandTo nuclide flags; Cartesian full/quarter cores of pin "
-    "cells in square/rectangular cans; theta-RZ cores of radial segments on grid bounds), core maps as independently rendered text "
-    "or explicit index lists, 1-4 assembly designs of 1-8 blocks; plus pure lattice-map cases (1-9 rings, holes) and planted "
-    "inconsistencies one at a time. A case = one document (or one map / one planted inconsistency); distinct = normal form of the "
-    "document layout (geometry, symmetry, map form, designs x block kinds x shapes x materials, modification / isotopics kinds); "
-    "non-trivial = at least 2 components of different materials and at least 2 mapped locations (maps: at least 2 cells)."
+    "generated blueprint documents of three families (hex flats-up third/full and corners-up full/third with pin-type blocks, prismatic blocks "
+    "(compacts and linked gaps in the holes of a HoledHexagon) and blocks of the less common shapes (HoledHexagon, HexHoledCircle, "
+    "HoledRectangle, HoledSquare, SolidRectangle, Rectangle, Square, Hexagon, Sphere, UnshapedComponent, with inserts linked to the hole "
+    "dimensions), optional pin lattices with or without a stated pin pitch, material modifications incl. class1/class2 blending, custom "
+    "isotopics (also one named vector shared by several designs, an earlier user modified, a later one not), explicit flags, expandTo "
+    "nuclide flags, xs types of one letter (either case) or two letters; Cartesian full/quarter cores of pin cells or holed / solid "
+    "rectangles in square/rectangular cans; theta-RZ cores of RadialSegment / DifferentialRadialSegment on grid bounds), core maps as "
+    "independently rendered text or explicit index lists, 1-4 assembly designs of 1-8 blocks; shape probes (one small hex core per "
+    "component shape class, all 15 classes a blueprint can name for a hex block); plus pure lattice-map cases (1-9 rings, holes) and "
+    "planted inconsistencies one at a time. A case = one document (or one map / one planted inconsistency); distinct = normal form of "
+    "the document layout (geometry, symmetry, map form, designs x block kinds x shapes x materials, modification / isotopics kinds); "
+    "non-trivial = at least 2 components of different materials and at least 2 mapped locations (maps: at least 2 cells). Components, "
+    "compositions, links, areas and pin grids are compared at every location of cores with at most 30 assemblies (larger cores: the "
+    "first location of each design and about one in five of the others). NOT judged (counted as unjudged): the density of a library "
+    "material carrying a custom-isotopics density when Thot != Tinput (the thermal scaling of the override is not documented), the "
+    "composition of a component carrying both custom isotopics and a material modification, the spatial grid armi infers for a block "
+    "without a `grid name`, the position of cell (0,0) of a full Cartesian map drawn with placeholder padding."
 )
 TOLERANCES = {
     "stored_exact": 0.0,  # heights, temperatures, dimensions, mult, xs type, mesh points: ==
@@ -45,20 +63,32 @@ TOLERANCES = {
     "ndens_rel": 1e-9,  # number densities given directly (custom isotopics as number densities)
     "z_rel": 1e-12,  # block z bounds = cumulative sums of heights
     "material_consistency_rel": 1e-9,  # pseudoDensity/(1+dLL) == density, precondition of the density oracle (else skip)
+    "coordinate_rel": 1e-9,  # cell / assembly centres vs closed form, in units of the pitch
+    "area_rel": 1e-9,  # getComponentArea(cold=True) vs the elementary-geometry formula of the shape on the written dimensions
 }
+DEEP_ALL_UP_TO = 30  # cores with at most this many mapped locations are compared in full depth at every location
 EXHAUSTIVE = {"quick": False, "thorough": False}
 EXHAUSTIVE_PART = "text-map formats: every literal fixture map of armi/utils/tests/test_asciimaps.py is parsed and re-rendered by the independent renderer and by armi"
 FLOORS = {
-    "quick": {"placement": 1500, "block": 2500, "component": 12000, "dimension": 20000, "link": 4000, "massfrac": 8000, "density": 6000,
-              "matmod": 150, "custom-isotopics": 100, "pin-lattice": 100, "flags": 12000, "map.fixture": 8, "map.read-mine": 250,
-              "map.text-roundtrip": 180, "map.contents-roundtrip": 120, "grid.save-roundtrip": 150, "determinism": 30, "invalid.refused": 30,
-              "inputs-unchanged": 200, "order-independence": 35, "shared-isotopics.unmodified-user": 40, "class-blend": 40,
-              "docs.cart-map-with-placeholder-padding": 6},
-    "thorough": {"placement": 30000, "block": 50000, "component": 250000, "dimension": 400000, "link": 80000, "massfrac": 160000, "density": 120000,
-                 "matmod": 3000, "custom-isotopics": 2000, "pin-lattice": 2000, "flags": 250000, "map.fixture": 8, "map.read-mine": 2500,
-                 "map.text-roundtrip": 1800, "map.contents-roundtrip": 1200, "grid.save-roundtrip": 2000, "determinism": 500, "invalid.refused": 400,
-                 "inputs-unchanged": 5000, "order-independence": 900, "shared-isotopics.unmodified-user": 1000, "class-blend": 1000,
-                 "docs.cart-map-with-placeholder-padding": 150},
+    # every floor is at most half of the smallest count seen over seeds 0-5 (quick) / seeds 0-1 (thorough); map.fixture counts the 8 fixture maps of armi's own test module per maps shard (a fixed number)
+    "quick": {"placement": 1200, "block": 4500, "component": 20000, "dimension": 40000, "link": 10000, "massfrac": 18000, "density": 18000,
+              "matmod": 500, "custom-isotopics": 1500, "pin-lattice": 2000, "flags": 25000, "map.fixture": 4, "map.read-mine": 150,
+              "map.text-roundtrip": 120, "map.contents-roundtrip": 75, "grid.save-roundtrip": 145, "determinism": 30, "invalid.refused": 25,
+              "inputs-unchanged": 140, "order-independence": 28, "shared-isotopics.unmodified-user": 80, "class-blend": 100,
+              "docs.cart-map-with-placeholder-padding": 6,
+              "geometry.grid": 1000, "geometry.symmetry": 1000, "geometry.hex-orientation": 750, "geometry.pitch": 700, "geometry.cell-centre": 3300,
+              "geometry.assembly-centre": 1100, "geometry.rz-bounds": 20, "area": 17000, "area.HoledHexagon": 400, "area.HexHoledCircle": 130,
+              "area.HoledRectangle": 130, "area.HoledSquare": 120, "area.SolidRectangle": 170, "area.Sphere": 110, "area.UnshapedComponent": 120,
+              "area.DifferentialRadialSegment": 120, "area.Helix": 1200, "shape-probe.built": 18},
+    "thorough": {"placement": 28000, "block": 100000, "component": 450000, "dimension": 1000000, "link": 250000, "massfrac": 400000, "density": 400000,
+                 "matmod": 13000, "custom-isotopics": 40000, "pin-lattice": 55000, "flags": 600000, "map.fixture": 4, "map.read-mine": 1400,
+                 "map.text-roundtrip": 1200, "map.contents-roundtrip": 750, "grid.save-roundtrip": 1400, "determinism": 500, "invalid.refused": 200,
+                 "inputs-unchanged": 3000, "order-independence": 700, "shared-isotopics.unmodified-user": 2500, "class-blend": 2500,
+                 "docs.cart-map-with-placeholder-padding": 150,
+                 "geometry.grid": 25000, "geometry.symmetry": 25000, "geometry.hex-orientation": 18000, "geometry.pitch": 16000, "geometry.cell-centre": 80000,
+                 "geometry.assembly-centre": 25000, "geometry.rz-bounds": 500, "area": 380000, "area.HoledHexagon": 10000, "area.HexHoledCircle": 3000,
+                 "area.HoledRectangle": 3500, "area.HoledSquare": 3500, "area.SolidRectangle": 3800, "area.Sphere": 2800, "area.UnshapedComponent": 3000,
+                 "area.DifferentialRadialSegment": 4500, "area.Helix": 28000, "shape-probe.built": 350},
 }
 TIMEOUT = {"quick": 900, "thorough": 7200}
 ASSUMPTIONS = [
@@ -72,6 +102,8 @@ ASSUMPTIONS = [
     "a component carrying BOTH custom isotopics and a material modification is built but its composition is not judged (the combination "
     "is not documented); every other user of the same isotopics vector is judged exactly",
     "text-map formats are taken from the docstrings of armi/utils/asciimaps.py and the literal fixtures of its test module (data)",
+    "cell-centre closed forms are read off the two index pictures of the HexGrid docstring and the through-centre / offset paragraph of the "
+    "CartesianGrid docstring; the meaning of a symmetry string (domain, boundary, through centre) is the vocabulary of armi/reactor/geometry.py (documentation as data)",
 ]
 
 SQ3 = math.sqrt(3.0)
@@ -298,6 +330,7 @@ KIND_WORD = {"fuel": "fuel", "control": "control", "shield": "shield", "reflecto
 ACCEPTED_MODS = {"UZr": ("U235_wt_frac", "ZR_wt_frac"), "UO2": ("U235_wt_frac", "TD_frac"), "B4C": ("B10_wt_frac", "TD_frac")}
 BLEND_KEYS = ("class1_wt_frac", "class1_custom_isotopics", "class2_custom_isotopics")  # FuelMaterial: remix the heavy metal from two feeds
 BLEND_MATS = ("UZr", "UO2")
+XS_TYPES = list("ABCDEFXYZ") + ["a", "b", "q", "z", "AA", "AB", "ZA", "Bc"]  # one letter of either case, or two letters (Block.getMicroSuffix docstring)
 ISO_ELEMENTS = ["FE", "CR", "NI", "MO", "MN", "SI", "C", "ZR", "NA", "O", "W", "V", "HE", "U"]
 ISO_NUCLIDES = ["U235", "U238", "PU239", "PU240", "B10", "B11", "AL27", "U234"]
 
@@ -497,8 +530,16 @@ def hex_document(rng, size=None):
                 continue
             kind = rng.choice(["fuel", "fuel", "fuel", "control", "shield", "reflector", "plenum"])
             uniq[0] += 1
-            bn = _name(rng, KIND_WORD[kind], uniq[0])
-            bs = gen.pin_block_spec(rng, kind=kind, pitch=pitch, npins=rng.choice(gen.HEX_PIN_COUNTS[:5]), coolant=coolant, hot=rng.random() < .85)
+            special = rng.random()
+            if special < .12:  # prismatic block: compacts in the holes of a HoledHexagon
+                bn = _name(rng, "fuel", uniq[0])
+                bs = prismatic_block_spec(rng, pitch, coolant, hot=rng.random() < .85)
+            elif special < .30:  # a block of the less common shape classes
+                bn = _name(rng, rng.choice(["shield", "reflector"]), uniq[0])
+                bs = shapes_block_spec(rng, pitch, coolant, hot=rng.random() < .85)
+            else:
+                bn = _name(rng, KIND_WORD[kind], uniq[0])
+                bs = gen.pin_block_spec(rng, kind=kind, pitch=pitch, npins=rng.choice(gen.HEX_PIN_COUNTS[:5]), coolant=coolant, hot=rng.random() < .85)
             decorate_block(rng, spec, bn, bs)
             spec["blocks"][bn] = bs
             bnames.append(bn)
@@ -507,7 +548,7 @@ def hex_document(rng, size=None):
         specifier = rng.choice(["A%d", "IC%d", "%dX", "s%d", "Z_%d"]) % d
         specs.append(specifier)
         a = {"specifier": specifier, "blocks": bnames, "height": heights, "axial mesh points": [rng.randint(1, 4) for _ in range(nb_)],
-             "xs types": [rng.choice("ABCDEFXYZ") for _ in range(nb_)]}
+             "xs types": [rng.choice(XS_TYPES) for _ in range(nb_)]}
         if rng.random() < .25:
             a["flags"] = " ".join(rng.sample(["fuel", "test", "control", "inner", "outer", "feed", "b"], rng.randint(1, 3)))
         if rng.random() < .2:
@@ -528,6 +569,134 @@ def hex_document(rng, size=None):
     spec["family"] = "hex"
     finish_flags(rng, spec)
     return spec
+
+
+# ---------------------------------------------------------------------------------------------- blocks of the less common shapes
+SHAPE_MATERIALS = ["HT9", "Zr", "Inconel600", "Graphite"]
+SHAPES_2D = ["HoledHexagon", "HexHoledCircle", "HoledRectangle", "HoledSquare", "SolidRectangle", "UnshapedComponent", "Sphere", "Rectangle", "Square", "Hexagon"]
+
+
+def _hexarea(p):
+    return SQ3 / 2.0 * p * p
+
+
+def shape_component(rng, shape, name, A, hot, mult=None):
+    """One component of class `shape` whose outline (holes included, all `mult` copies) covers about A cm2, plus - sometimes - an insert
+    that fills its hole through links (od / op linked to the hole dimension, mult linked to the holder's mult).
+    Returns a list of component dicts (holder first)."""
+    u = rng.uniform
+    mat = rng.choice(SHAPE_MATERIALS)
+    Th = round(u(150, 600), 2) if hot else 25.0
+    m = mult if mult is not None else rng.choice([1, 1, 2, 3, 6])
+    a1 = A / m
+    d = {"name": name, "shape": shape, "material": mat, "Tinput": 25.0, "Thot": Th}
+    extra = []
+    rd_ = lambda x: round(x, rng.choice([3, 5, 9]))
+    if shape == "HoledHexagon":
+        op = rd_(math.sqrt(a1 / (SQ3 / 2.0)))
+        n = rng.choice([1, 1, 3, 7, 19])
+        hod = rd_(math.sqrt(u(.05, .5) * _hexarea(op) / (n * math.pi / 4.0)))
+        d.update(op=op, holeOD=hod, nHoles=n, mult=m)
+        if n == 1 and rng.random() < .6:
+            extra.append({"name": name + " insert", "shape": "Circle", "material": rng.choice(SHAPE_MATERIALS), "Tinput": 25.0, "Thot": Th, "id": rng.choice([0.0, rd_(hod * u(.2, .7))]),
+                          "od": "%s.holeOD" % name, "mult": "%s.mult" % name})
+    elif shape == "HexHoledCircle":
+        od = rd_(2.0 * math.sqrt(a1 / math.pi))
+        hop = rd_(od * u(.1, .7))
+        d.update(od=od, holeOP=hop, mult=m)
+        if rng.random() < .6:
+            extra.append({"name": name + " insert", "shape": "Hexagon", "material": rng.choice(SHAPE_MATERIALS), "Tinput": 25.0, "Thot": Th, "ip": rng.choice([0.0, rd_(hop * u(.2, .7))]),
+                          "op": "%s.holeOP" % name, "mult": "%s.mult" % name})
+    elif shape in ("HoledRectangle", "SolidRectangle", "Rectangle"):
+        asp = u(1.0, 2.0)
+        w = rd_(math.sqrt(a1 / asp))
+        l = rd_(asp * w)
+        if rng.random() < .5:
+            l, w = w, l
+        d.update(lengthOuter=l, widthOuter=w)
+        if shape == "HoledRectangle":
+            d.update(holeOD=rd_(min(l, w) * u(.1, .8)))
+            if rng.random() < .5:
+                extra.append({"name": name + " insert", "shape": "Circle", "material": rng.choice(SHAPE_MATERIALS), "Tinput": 25.0, "Thot": Th, "id": 0.0, "od": "%s.holeOD" % name, "mult": "%s.mult" % name})
+        elif shape == "Rectangle":
+            d.update(lengthInner=rd_(l * u(0, .9)), widthInner=rd_(w * u(0, .9)))
+        d.update(mult=m)
+    elif shape in ("HoledSquare", "Square"):
+        w = rd_(math.sqrt(a1))
+        d.update(widthOuter=w)
+        if shape == "HoledSquare":
+            d.update(holeOD=rd_(w * u(.1, .8)))
+            if rng.random() < .5:
+                extra.append({"name": name + " insert", "shape": "Circle", "material": rng.choice(SHAPE_MATERIALS), "Tinput": 25.0, "Thot": Th, "id": 0.0, "od": "%s.holeOD" % name, "mult": "%s.mult" % name})
+        else:
+            d.update(widthInner=rd_(w * u(0, .9)))
+        d.update(mult=m)
+    elif shape == "Hexagon":
+        op = rd_(math.sqrt(a1 / (SQ3 / 2.0)))
+        d.update(ip=rng.choice([0.0, rd_(op * u(.1, .9))]), op=op, mult=m)
+    elif shape == "Triangle":
+        b_ = rd_(math.sqrt(2.0 * a1 * u(.6, 1.6)))
+        d.update(base=b_, height=rd_(2.0 * a1 / b_), mult=m)
+    elif shape == "UnshapedComponent":
+        d.update(area=rd_(A))
+    elif shape == "Sphere":
+        od = rd_(u(.3, 1.5))
+        per = math.pi / 6.0 * od ** 3 / 5.0  # blocks are at least 5 cm tall: cross-section share of one sphere is at most this
+        d.update(od=od, id=rng.choice([0.0, rd_(od * u(.2, .8))]), mult=max(1, min(60, int(A / per))))
+    elif shape == "Cube":
+        e = rd_(min(2.0, math.sqrt(a1)))
+        d.update(lengthOuter=e, lengthInner=0.0, widthOuter=e, widthInner=0.0, heightOuter=e, heightInner=0.0, mult=m)
+    elif shape == "UnshapedVolumetricComponent":
+        d.update(area=rd_(A), volume=rd_(A * 5.0))
+    elif shape == "Circle":
+        od = rd_(2.0 * math.sqrt(a1 / math.pi))
+        d.update(id=rng.choice([0.0, rd_(od * u(.1, .9))]), od=od, mult=m)
+    elif shape == "Helix":
+        od = rd_(u(.05, .2))
+        d.update(axialPitch=rd_(u(10, 40)), helixDiameter=rd_(u(.5, 2)), id=0.0, od=od, mult=max(1, int(A / (math.pi / 4.0 * od * od * 1.2))))
+    else:
+        raise ValueError(shape)
+    return [d] + extra
+
+
+def shapes_block_spec(rng, pitch, coolant, hot, shapes=None):
+    """A hex block of 1-4 components of the less common shape classes (+ linked inserts), DerivedShape coolant, duct, intercoolant.
+    The outlines of the shapes take at most 55 % of the duct's inside, so the derived coolant area is positive, and every shape is
+    smaller than the duct, so the outermost Hexagon defines the block."""
+    duct_op = pitch - .3
+    duct_ip = duct_op - 2 * pitch * .02
+    n = len(shapes) if shapes else rng.randint(1, 4)
+    budget = .55 * _hexarea(duct_ip) / n
+    Tc = round(rng.uniform(350, 500), 2) if hot else 25.0
+    Ts = round(rng.uniform(350, 500), 2) if hot else 25.0
+    comps = []
+    for k in range(n):
+        shape = shapes[k] if shapes else rng.choice(SHAPES_2D)
+        comps += shape_component(rng, shape, "%s %d" % (shape.lower()[:7], k), budget * rng.uniform(.3, .9), hot)
+    smat = rng.choice(["HT9", "Zr", "Inconel600"])
+    comps.append({"name": "coolant", "shape": "DerivedShape", "material": coolant, "Tinput": Tc, "Thot": Tc})
+    comps.append({"name": "duct", "shape": "Hexagon", "material": smat, "Tinput": 25.0, "Thot": Ts, "ip": duct_ip, "op": duct_op, "mult": 1})
+    comps.append({"name": "intercoolant", "shape": "Hexagon", "material": coolant, "Tinput": Tc, "Thot": Tc, "ip": "duct.op", "op": pitch, "mult": 1})
+    return {"components": comps, "pitch": pitch, "npins": 0, "kind": "shapes"}
+
+
+def prismatic_block_spec(rng, pitch, coolant, hot):
+    """Prismatic block: n fuel compacts (Circle) and their gaps (Void, linked to fuel.od and to the matrix's holeOD) in the n holes of
+    a HoledHexagon matrix; a Hexagon of coolant between the matrix and the lattice pitch."""
+    u = rng.uniform
+    op = round(pitch - u(.2, .5), 4)
+    n = rng.choice([1, 7, 19, 37])
+    hod = round(math.sqrt(u(.15, .5) * _hexarea(op) / (n * math.pi / 4.0)), 5)
+    Tf = round(u(500, 800), 2) if hot else 25.0
+    Ts = round(u(350, 500), 2) if hot else 25.0
+    Tc = round(u(350, 500), 2) if hot else 25.0
+    comps = [
+        {"name": "fuel", "shape": "Circle", "material": rng.choice(["UZr", "UO2"]), "Tinput": 25.0, "Thot": Tf, "id": 0.0, "od": round(hod * u(.8, .97), 5), "mult": n},
+        {"name": "gap", "shape": "Circle", "material": "Void", "Tinput": Tc, "Thot": Tc, "id": "fuel.od", "od": "matrix.holeOD", "mult": rng.choice(["fuel.mult", "matrix.nHoles"])},
+        {"name": "matrix", "shape": "HoledHexagon", "material": rng.choice(["Graphite", "HT9"]), "Tinput": 25.0, "Thot": Ts, "op": op, "holeOD": hod, "nHoles": n, "mult": 1},
+        {"name": "intercoolant", "shape": "Hexagon", "material": coolant, "Tinput": Tc, "Thot": Tc, "ip": "matrix.op", "op": pitch, "mult": 1},
+    ]
+    return {"components": comps, "pitch": pitch, "npins": n, "kind": "prismatic"}
 
 
 def decorate_block(rng, spec, bname, bs):
@@ -554,11 +723,18 @@ def decorate_block(rng, spec, bname, bs):
         mk = rng.choice(["hexcu-full", "hex-full"])
         spec["grids"][gname] = {"geom": "hex_corners_up" if mk == "hexcu-full" else "hex", "symmetry": "full", "contents": cont, "mapkind": mk,
                                 "R": max(ring_of(*c) for c in cont), "form": rng.choice(["text", "contents"]), "pin": True}
+        if rng.random() < .5:  # a stated pin pitch (otherwise armi builds a unit grid)
+            spec["grids"][gname]["lattice pitch"] = (round(rng.uniform(.5, 2.5), 4), 0.0)
         bs["grid name"] = gname
         first = pins[0]
         use = ids if rng.random() < .7 else ids[:1]
         for c in pins:
             c["latticeIDs"] = list(use)
+        if bs.get("kind") == "prismatic":
+            # the compacts sit in the holes of the matrix: as many holes as lattice positions (armi compares the assemblies' areas)
+            if not any(v in use for v in cont.values()):
+                cont[(0, 0)] = use[0]
+            next(c for c in comps if c["name"] == "matrix")["nHoles"] = sum(1 for v in cont.values() if v in use)
         n = sum(1 for v in cont.values() if v in use)
         mode = rng.choice(["omit", "one", "equal"])
         if mode == "omit":
@@ -1165,6 +1341,151 @@ def doc_witness(spec, text, **kw):
     return w
 
 
+# ---------------------------------------------------------------------------------------------- geometry of the built grids
+# what the generator's symmetry strings mean in the vocabulary of armi/reactor/geometry.py: (domain, boundary, through centre assembly)
+SYMMETRY_MEANING = {
+    "full": ("full", "", False),
+    "third periodic": ("third", "periodic", False),
+    "quarter reflective": ("quarter", "reflective", False),
+    "quarter reflective through center assembly": ("quarter", "reflective", True),
+    "quarter periodic": ("quarter", "periodic", False),
+    "eighth periodic": ("eighth", "periodic", False),
+}
+GEOM_TYPE = {"hex": "hex", "hex_corners_up": "hex", "cartesian": "cartesian", "thetarz": "thetarz"}
+
+
+def hex_centre(i, j, pitch, corners_up):
+    """Centre of hexagon (i, j), read off the two index pictures in the HexGrid docstring: flats up - (1,0) is the upper right
+    neighbour, (0,1) straight above; corners up - (1,0) upper right, (0,1) upper left, (1,-1) straight to the right."""
+    if corners_up:
+        return (pitch * (i - j) / 2.0, pitch * SQ3 / 2.0 * (i + j))
+    return (pitch * SQ3 / 2.0 * i, pitch * (i / 2.0 + j))
+
+
+def _xy(v):
+    return (float(v[0]), float(v[1]))
+
+
+def _near(a, b, scale):
+    return abs(a[0] - b[0]) <= TOLERANCES["coordinate_rel"] * scale and abs(a[1] - b[1]) <= TOLERANCES["coordinate_rel"] * scale
+
+
+def cart_offset_expectation(g):
+    """Where the centre of cell (0,0) of a Cartesian grid lies, per the CartesianGrid docstring: 'through center' (odd-by-odd) -> at the
+    origin; not through centre (even-by-even) -> offset by half a cell.  Returns True (through centre), False, or None when the document
+    does not decide it (a full map drawn with padding, or neither odd-by-odd nor even-by-even)."""
+    dom, _, through = SYMMETRY_MEANING[g["symmetry"]]
+    if dom != "full":
+        return through
+    if g.get("padded"):
+        return None
+    cells = list(g["contents"])
+    nx = max(i for i, _ in cells) - min(i for i, _ in cells) + 1
+    ny = max(j for _, j in cells) - min(j for _, j in cells) + 1
+    if nx == ny and nx % 2 == 1:
+        return True
+    if nx % 2 == 0 and ny % 2 == 0:
+        return False
+    return None
+
+
+def judge_grid_geometry(rec, V, g, grid, where, pitch=None):
+    """Orientation, symmetry, geometry type, pitch / bounds and cell centres of a grid built from the grid section `g`.
+    `pitch` = the pitch the document implies (hex: a number; Cartesian: (x, y)) or None when the document leaves it open.
+    Returns the Cartesian offset of cell (0,0) that was observed (for the per-assembly centre check), or None."""
+    from armi.reactor import grids
+
+    K = lambda key, what, **kw: V("grid-geometry/%s/%s" % (where, key), "%s grid: %s" % (where, what), grid_section={k: v for k, v in g.items() if k not in ("contents",)}, **kw)
+    rec.hit("geometry.grid")
+    geom = g["geom"]
+    # ---- class, geometry type
+    expcls = {"hex": grids.HexGrid, "hex_corners_up": grids.HexGrid, "cartesian": grids.CartesianGrid, "thetarz": grids.ThetaRZGrid}[geom]
+    if type(grid) is not expcls:
+        K("class", "built as %s, geom %s asks for %s" % (type(grid).__name__, geom, expcls.__name__))
+        return None
+    if str(grid.geomType) != GEOM_TYPE[geom]:
+        K("geom-type", "geomType %r, document says geom %s" % (str(grid.geomType), geom))
+    # ---- symmetry
+    if g.get("symmetry"):
+        rec.hit("geometry.symmetry")
+        dom, bnd, through = SYMMETRY_MEANING[g["symmetry"]]
+        try:
+            sym = grid.symmetry
+            got = (str(sym.domain), str(sym.boundary) if sym.boundary.hasSymmetry() else "", bool(sym.isThroughCenterAssembly))
+        except Exception as e:
+            K("symmetry-unreadable", "symmetry of the built grid cannot be read: %s: %s" % (type(e).__name__, e))
+            got = None
+        if got is not None:
+            if got[:2] != (dom, bnd):
+                K("symmetry", "symmetry %r (domain %r, boundary %r), document says %r" % (str(sym), got[0], got[1], g["symmetry"]))
+            elif geom == "cartesian":
+                exp_through = cart_offset_expectation(g)
+                if exp_through is not None and got[2] != exp_through:
+                    K("symmetry-through-centre", "symmetry %r, but the document (%s, %s) %s through the centre assembly" % (str(sym), g["symmetry"], g.get("mapkind"), "goes" if exp_through else "does not go"))
+            elif got[2]:
+                K("symmetry-through-centre", "symmetry %r on a %s grid" % (str(sym), geom))
+    # ---- hexagonal: orientation, pitch, centres of off-axis cells
+    if geom in ("hex", "hex_corners_up"):
+        cu = geom == "hex_corners_up"
+        rec.hit("geometry.hex-orientation")
+        if bool(grid.cornersUp) != cu:
+            K("hex-orientation", "cornersUp is %r, document says geom %s" % (grid.cornersUp, geom))
+        p = pitch
+        if p is not None:
+            rec.hit("geometry.pitch")
+            if not close(float(grid.pitch), p, 1e-12):
+                K("hex-pitch", "pitch %r, document implies %r" % (grid.pitch, p))
+        else:
+            p = float(grid.pitch)  # the document leaves the pitch open (unit grid): directions are still judged
+        for cell in ((1, 0), (0, 1), (2, -1), (-1, 2)):
+            rec.hit("geometry.cell-centre")
+            got = _xy(grid.getCoordinates((cell[0], cell[1], 0)))
+            exp = hex_centre(cell[0], cell[1], p, cu)
+            if not _near(got, exp, p):
+                K("hex-cell-centre", "centre of cell %r is %r, closed form for %s at pitch %r gives %r" % (cell, got, "corners up" if cu else "flats up", p, exp), cell=list(cell))
+                break
+        return None
+    # ---- Cartesian: steps = lattice pitch, centre of (0,0) on the origin or half a cell off
+    if geom == "cartesian":
+        c00 = _xy(grid.getCoordinates((0, 0, 0)))
+        c10 = _xy(grid.getCoordinates((1, 0, 0)))
+        c01 = _xy(grid.getCoordinates((0, 1, 0)))
+        if pitch is None:
+            return None
+        px, py = float(pitch[0]), float(pitch[1])
+        scale = max(px, py)
+        rec.hit("geometry.pitch")
+        if not _near((c10[0] - c00[0], c10[1] - c00[1]), (px, 0.0), scale) or not _near((c01[0] - c00[0], c01[1] - c00[1]), (0.0, py), scale):
+            K("cartesian-lattice-pitch", "steps of the grid are %r along i and %r along j, the lattice pitch is x %r, y %r" % ((c10[0] - c00[0], c10[1] - c00[1]), (c01[0] - c00[0], c01[1] - c00[1]), px, py))
+            return None
+        try:
+            gp = grid.pitch
+            if not (close(float(gp[0]), px, 1e-12) and close(float(gp[1]), py, 1e-12)):
+                K("cartesian-lattice-pitch", "grid.pitch %r, the lattice pitch is x %r, y %r" % (gp, px, py))
+        except Exception as e:
+            K("cartesian-pitch-unreadable", "%s: %s" % (type(e).__name__, e))
+        rec.hit("geometry.cell-centre")
+        exp_through = cart_offset_expectation(g)
+        allowed = {True: [(0.0, 0.0)], False: [(px / 2.0, py / 2.0)], None: [(0.0, 0.0), (px / 2.0, py / 2.0)]}[exp_through]
+        if not any(_near(c00, a, scale) for a in allowed):
+            K("cartesian-origin", "centre of cell (0,0) is %r, the document (%s) puts it at %r" % (c00, g["symmetry"], allowed))
+            return None
+        return c00
+    # ---- theta-R-Z: the bounds are the ones written
+    rec.hit("geometry.rz-bounds")
+    try:
+        tb, rb = grid.getBounds()[0], grid.getBounds()[1]
+        tb, rb = [float(x) for x in tb], [float(x) for x in rb]
+    except Exception as e:
+        K("rz-bounds-unreadable", "%s: %s" % (type(e).__name__, e))
+        return None
+    if tb != [float(x) for x in g["grid bounds"]["theta"]]:
+        K("rz-bounds/theta", "theta bounds %r, document %r" % (tb, g["grid bounds"]["theta"]))
+    if rb != [float(x) for x in g["grid bounds"]["r"]]:
+        K("rz-bounds/r", "radial bounds %r, document %r" % (rb, g["grid bounds"]["r"]))
+    return None
+
+
 def compare_reactor(rec, spec, r, text):
     """Judge the built reactor against the spec. Returns number of mapped locations."""
     rd = Reading(spec)
@@ -1172,6 +1493,20 @@ def compare_reactor(rec, spec, r, text):
     core = r.core
     g = spec["grids"][spec["systems"]["core"]["grid name"]]
     by_spec = {a["specifier"]: (an, a) for an, a in spec["assemblies"].items()}
+    # ---- geometry of the core grid
+    if spec["family"] == "hex":
+        core_pitch = float(g["lattice pitch"][0]) if g.get("lattice pitch") else float(spec["pitch"])
+    elif spec["family"] == "cart":
+        core_pitch = tuple(float(x) for x in (g.get("lattice pitch") or spec["pitch"]))
+    else:
+        core_pitch = None
+    cart_c00 = None
+    try:
+        cart_c00 = judge_grid_geometry(rec, V, g, core.spatialGrid, "core", core_pitch)
+        if str(core.geomType) != GEOM_TYPE[g["geom"]]:
+            V("grid-geometry/core/geom-type", "core.geomType %r, document says geom %s" % (str(core.geomType), g["geom"]))
+    except Exception as e:
+        rec.crash("grid-geometry/core", e, doc_witness(spec, text))
     # ---- system
     o = spec["systems"]["core"]["origin"]
     rec.hit("system")
@@ -1213,8 +1548,23 @@ def compare_reactor(rec, spec, r, text):
         if a.getType() != aname:
             V("placement/wrong-design/%s/%s" % (g["mapkind"], g["form"]), "at %r: assembly of design %r, document says %r (specifier %s)" % (idx, a.getType(), aname, sp), location=list(idx))
             continue
-        # full structural comparison once per design and for one more random-ish location; cheap identity checks everywhere
-        deep = sp not in judged_designs or (idx[0] * 7 + idx[1] * 13) % 5 == 0
+        # ---- where the assembly sits in space: closed form from the indices and the pitch the document implies
+        exp_xy = None
+        if spec["family"] == "hex":
+            exp_xy, scale = hex_centre(idx[0], idx[1], core_pitch, g["geom"] == "hex_corners_up"), core_pitch
+        elif spec["family"] == "cart" and cart_c00 is not None:
+            exp_xy, scale = (cart_c00[0] + core_pitch[0] * idx[0], cart_c00[1] + core_pitch[1] * idx[1]), max(core_pitch)
+        if exp_xy is not None:
+            rec.hit("geometry.assembly-centre")
+            try:
+                got_xy = _xy(a.spatialLocator.getLocalCoordinates())
+                if not _near(got_xy, exp_xy, scale):
+                    V("grid-geometry/core/assembly-centre/%s" % g["geom"], "assembly at %r is centred at %r, indices and pitch %r give %r" % (idx, got_xy, core_pitch, exp_xy), location=list(idx))
+            except Exception as e:
+                rec.crash("grid-geometry/assembly-centre", e, doc_witness(spec, text, location=list(idx)))
+        # full structural comparison at every location of a small core (<= 30 assemblies); in larger cores once per design and at about
+        # one in five of the other locations; cheap identity checks everywhere
+        deep = len(want) <= DEEP_ALL_UP_TO or sp not in judged_designs or (idx[0] * 7 + idx[1] * 13) % 5 == 0
         judged_designs.add(sp)
         compare_assembly(rec, rd, spec, text, a, aname, ad, idx, deep)
     return len(want)
@@ -1261,6 +1611,18 @@ def compare_assembly(rec, rd, spec, text, a, aname, ad, idx, deep):
         if type(b).__name__ != expcls:
             W("block/class", "block class %s, expected %s" % (type(b).__name__, expcls))
         if deep:
+            if bs.get("grid name"):
+                # the block's own grid is the one its `grid name` section describes (a block without one gets a grid armi infers
+                # from the pin count - not described by the document, not judged)
+                pg = spec["grids"][bs["grid name"]]
+                try:
+                    if b.spatialGrid is None:
+                        W("grid-geometry/pin-lattice/missing", "block with grid name %r has no spatial grid" % bs["grid name"])
+                    else:
+                        lp = pg.get("lattice pitch")
+                        judge_grid_geometry(rec, W, pg, b.spatialGrid, "pin-lattice", None if not lp else (float(lp[0]) if pg["geom"].startswith("hex") else (float(lp[0]), float(lp[1]))))
+                except Exception as e:
+                    rec.crash("grid-geometry/pin-lattice", e, doc_witness(spec, text, block=bn))
             compare_components(rec, rd, spec, text, b, bs, bn, ad, k, W)
 
 
@@ -1332,6 +1694,24 @@ def compare_components(rec, rd, spec, text, b, bs, bn, ad, k, W):
             rec.hit("dimension")
             if c.getDimension("mult") not in (1, 1.0, None):
                 X("component/mult", "%s has no mult in the document, model has %r" % (c.name, c.getDimension("mult")), dimension="mult")
+        # ---- cross-section area at the written (cold) dimensions against the elementary formula of the shape
+        if cs_["shape"] != "DerivedShape":
+            try:
+                exp_area = closed_area(cs_["shape"], lambda key_: spec_cold_dim(bs, grid, cs_, key_), ad["height"][k])
+            except _NotStated as e:
+                exp_area = None
+                rec.skip("area: %s" % e)
+            if exp_area is not None:
+                try:
+                    got_area = float(c.getComponentArea(cold=True))
+                except Exception as e:
+                    got_area = None
+                    rec.crash("component-area/%s" % cs_["shape"], e, doc_witness(spec, text, block=bn, component=cs_["name"]))
+                if got_area is not None:
+                    rec.hit("area")
+                    rec.hit("area.%s" % cs_["shape"])
+                    if not close(got_area, exp_area, TOLERANCES["area_rel"], 1e-14):
+                        X("component/area/%s" % cs_["shape"], "%s (%s): getComponentArea(cold=True) is %r, the shape's formula on the written dimensions gives %r" % (c.name, cs_["shape"], got_area, exp_area), shape=cs_["shape"])
         # ---- pin lattice
         if lat_n is not None:
             rec.hit("pin-lattice")
@@ -1361,6 +1741,67 @@ def compare_components(rec, rd, spec, text, b, bs, bn, ad, k, W):
         if shared and cs_.get("isotopics") == shared["name"] and not comp_ref.get("unjudged"):
             rec.hit("shared-isotopics.unmodified-user")
         compare_composition(rec, rd, c, cs_, comp_ref, bool(ef & Flags.DEPLETABLE), X)
+
+
+class _NotStated(Exception):
+    pass
+
+
+def spec_cold_dim(bs, grid, comp, key, _depth=0):
+    """Cold value of a dimension as the document states it: a number as written; a link -> the written value of the target (followed);
+    the multiplicity of a component placed on a pin lattice -> the number of lattice positions carrying its ids."""
+    if _depth > 8 or not comp:
+        raise _NotStated("link chain of %s does not end" % key)
+    if key == "mult" and comp.get("latticeIDs") and grid is not None:
+        n = sum(1 for v in grid["contents"].values() if v in comp["latticeIDs"])
+        if n:
+            return n
+    v = comp.get(key)
+    if v is None:
+        raise _NotStated("%s of a %s not stated in the document" % (key, comp.get("shape")))
+    if _is_link(v):
+        tname, tdim = v.rsplit(".", 1)
+        return spec_cold_dim(bs, grid, bs_comp(bs, tname), tdim, _depth + 1)
+    return v
+
+
+def closed_area(shape, d, block_height):
+    """Cross-section area in cm2 (all `mult` copies) from the cold dimensions d(name), by elementary geometry; 3-D shapes: volume
+    over the block height (the average over the height, as their docstrings say)."""
+    pi = math.pi
+    if shape == "UnshapedComponent":
+        return d("area")
+    m = d("mult")
+    if shape == "Circle":
+        return m * pi / 4.0 * (d("od") ** 2 - d("id") ** 2)
+    if shape == "Hexagon":
+        return m * SQ3 / 2.0 * (d("op") ** 2 - d("ip") ** 2)
+    if shape == "Rectangle":
+        return m * (d("lengthOuter") * d("widthOuter") - d("lengthInner") * d("widthInner"))
+    if shape == "Square":
+        return m * (d("widthOuter") ** 2 - d("widthInner") ** 2)
+    if shape == "SolidRectangle":
+        return m * d("lengthOuter") * d("widthOuter")
+    if shape == "Triangle":
+        return m * d("base") * d("height") / 2.0
+    if shape == "Helix":  # a wire of annular section wound at diameter D with axial pitch P is sqrt((pi*D)^2+P^2)/P times longer than the axis
+        return m * pi / 4.0 * (d("od") ** 2 - d("id") ** 2) * math.sqrt((pi * d("helixDiameter")) ** 2 + d("axialPitch") ** 2) / d("axialPitch")
+    if shape == "HoledHexagon":
+        return m * (SQ3 / 2.0 * d("op") ** 2 - d("nHoles") * pi / 4.0 * d("holeOD") ** 2)
+    if shape == "HexHoledCircle":
+        return m * (pi / 4.0 * d("od") ** 2 - SQ3 / 2.0 * d("holeOP") ** 2)
+    if shape == "HoledRectangle":
+        return m * (d("lengthOuter") * d("widthOuter") - pi / 4.0 * d("holeOD") ** 2)
+    if shape == "HoledSquare":
+        return m * (d("widthOuter") ** 2 - pi / 4.0 * d("holeOD") ** 2)
+    if shape == "Sphere":
+        return m * pi / 6.0 * (d("od") ** 3 - d("id") ** 3) / block_height
+    if shape == "RadialSegment":
+        return m * (d("outer_radius") ** 2 - d("inner_radius") ** 2) / 2.0 * (d("outer_theta") - d("inner_theta"))
+    if shape == "DifferentialRadialSegment":
+        ri = d("inner_radius")
+        return m * ((ri + d("radius_differential")) ** 2 - ri ** 2) / 2.0 * d("azimuthal_differential")
+    raise _NotStated("no elementary area formula for shape %s" % shape)
 
 
 def locator_cells(loc):
@@ -1485,6 +1926,40 @@ def first_difference(a, b, path="reactor"):
     return None
 
 
+# ---------------------------------------------------------------------------------------------- shape probes
+PROBE_SHAPES = ["Circle", "Hexagon", "Rectangle", "Square", "SolidRectangle", "Triangle", "HoledHexagon", "HexHoledCircle", "HoledRectangle", "HoledSquare", "Helix", "Sphere", "Cube",
+                "UnshapedComponent", "UnshapedVolumetricComponent"]
+
+
+def shape_probe_document(rng, shape):
+    """A small hex core (one ring around the centre) of one or two designs whose blocks hold one or two components of class `shape`
+    (and sometimes one of another class) next to derived coolant, duct and intercoolant: every shape class a blueprint can name is
+    built from text at least a few times, whatever the main families draw."""
+    pitch = round(rng.uniform(8, 18), 4)
+    coolant = rng.choice(["Sodium", "Lead"])
+    spec = {"blocks": {}, "assemblies": {}, "grids": {}, "custom isotopics": {}, "settings": {}, "family": "hex", "pitch": pitch, "probe": shape}
+    heights = [round(rng.uniform(5, 40), 2) for _ in range(rng.randint(1, 3))]
+    specs = []
+    uniq = 0
+    for d in range(rng.randint(1, 2)):
+        bnames = []
+        for k in range(len(heights)):
+            uniq += 1
+            bn = _name(rng, rng.choice(["shield", "reflector"]), uniq)
+            shapes = [shape] * rng.randint(1, 2) + ([rng.choice(SHAPES_2D)] if rng.random() < .4 else [])
+            spec["blocks"][bn] = shapes_block_spec(rng, pitch, coolant, hot=rng.random() < .8, shapes=shapes)
+            bnames.append(bn)
+        uniq += 1
+        sp = "P%d" % d
+        specs.append(sp)
+        spec["assemblies"][_name(rng, "reflector", uniq)] = {"specifier": sp, "blocks": bnames, "height": list(heights), "axial mesh points": [rng.randint(1, 3) for _ in heights],
+                                                            "xs types": [rng.choice(XS_TYPES) for _ in heights]}
+    spec["grids"]["core"] = core_grid(rng, rng.choice(["hex-third", "hex-full", "hexcu-full"]), specs, R=1, holes=rng.choice([0.0, .2]))
+    spec["systems"] = {"core": {"grid name": "core", "origin": (0.0, 0.0, 0.0)}}
+    finish_flags(rng, spec)
+    return spec
+
+
 # ---------------------------------------------------------------------------------------------- Cartesian documents
 def cart_block(rng, P, kind, coolant, uniq):
     """A pin cell bundle in a square can: [fuel|absorber pins, gap, clad], coolant (derived), can, outer coolant (defines the pitch)."""
@@ -1512,11 +1987,22 @@ def cart_block(rng, P, kind, coolant, uniq):
         comps.append({"name": "gap", "shape": "Circle", "material": "Void", "Tinput": Tc, "Thot": Tc, "id": "control.od", "od": "clad.id", "mult": "control.mult"})
         comps.append({"name": "clad", "shape": "Circle", "material": smat, "Tinput": 20.0, "Thot": Ts, "id": clad_id, "od": clad_od, "mult": "control.mult"})
     else:
-        comps.append({"name": "reflector", "shape": rng.choice(["Circle", "Square"]), "material": smat, "Tinput": 20.0, "Thot": Ts, "mult": n * n})
-        if comps[-1]["shape"] == "Circle":
+        comps.append({"name": "reflector", "shape": rng.choice(["Circle", "Square", "HoledSquare", "HoledRectangle", "SolidRectangle", "Rectangle"]), "material": smat, "Tinput": 20.0, "Thot": Ts, "mult": n * n})
+        shp = comps[-1]["shape"]
+        if shp == "Circle":
             comps[-1].update(id=0.0, od=clad_od)
-        else:
+        elif shp == "Square":
             comps[-1].update(widthOuter=clad_od * .8, widthInner=0.0)
+        elif shp == "HoledSquare":
+            comps[-1].update(widthOuter=clad_od * .8, holeOD=clad_od * rng.uniform(.1, .6))
+        else:
+            comps[-1].update(lengthOuter=clad_od * rng.uniform(.5, .9), widthOuter=clad_od * rng.uniform(.5, .9))
+            if shp == "HoledRectangle":
+                comps[-1].update(holeOD=min(comps[-1]["lengthOuter"], comps[-1]["widthOuter"]) * rng.uniform(.1, .8))
+            elif shp == "Rectangle":
+                comps[-1].update(lengthInner=comps[-1]["lengthOuter"] * rng.uniform(0, .8), widthInner=comps[-1]["widthOuter"] * rng.uniform(0, .8))
+        if shp in ("HoledSquare", "HoledRectangle") and rng.random() < .5:  # a rod in the hole, sized and counted through links
+            comps.append({"name": "rod", "shape": "Circle", "material": rng.choice(["Zr", "HT9", "Inconel600"]), "Tinput": 20.0, "Thot": Ts, "id": 0.0, "od": "reflector.holeOD", "mult": "reflector.mult"})
     comps.append({"name": "coolant", "shape": "DerivedShape", "material": coolant, "Tinput": Tc, "Thot": Tc})
     if square:
         comps.append({"name": "duct", "shape": "Square", "material": smat, "Tinput": 20.0, "Thot": Ts, "widthOuter": px - .2, "widthInner": px - .2 - 2 * t, "mult": 1})
@@ -1558,7 +2044,7 @@ def cart_document(rng, size=None):
         aname = _name(rng, rng.choice(["fuel", "control", "reflector"]), uniq)
         sp = rng.choice(["U%d", "MX%d", "%dw"]) % d
         specs.append(sp)
-        a = {"specifier": sp, "blocks": bnames, "height": list(heights), "axial mesh points": [rng.randint(1, 3) for _ in heights], "xs types": [rng.choice("ABCD") for _ in heights]}
+        a = {"specifier": sp, "blocks": bnames, "height": list(heights), "axial mesh points": [rng.randint(1, 3) for _ in heights], "xs types": [rng.choice(XS_TYPES[:4] + XS_TYPES[9:]) for _ in heights]}
         if rng.random() < .3:
             a["flags"] = rng.choice(["fuel", "control test", "reflector outer"])
         add_material_mods(rng, spec, a)
@@ -1591,7 +2077,7 @@ def cart_document(rng, size=None):
     for corner in ((rect[0], rect[1]), (rect[0] + nx - 1, rect[1] + ny - 1)):
         cont.setdefault(corner, specs[0])
     form = rng.choice(["text", "contents"])
-    if form == "text" and rng.random() < .4:
+    if form == "text" and rng.random() < .6:
         # a drawn map may be wider than what it holds: whole outer columns / lines of placeholders (a padding ring, or padding on
         # some sides only).  The text extent, not the occupied extent, says where (0,0) is.
         pl, pr, pb, pt = (rng.choice([0, 1, 1, 2]) for _ in range(4))
@@ -1606,6 +2092,8 @@ def cart_document(rng, size=None):
             rect = (0, 0, nx + pr, ny + pt)  # quarter maps are anchored at the lower left: padding on the right / top only
         spec["padded_map"] = [pl, pr, pb, pt]
     spec["grids"]["core"] = {"geom": "cartesian", "symmetry": sym, "contents": cont, "mapkind": mk, "rect": rect, "form": form, "lattice pitch": P}
+    if spec.get("padded_map") and any(spec["padded_map"]):
+        spec["grids"]["core"]["padded"] = True  # the drawn extent differs from the occupied extent: where (0,0) sits in space is not decided by the document
     spec["systems"] = {"core": {"grid name": "core", "origin": (0.0, 0.0, rng.choice([0.0, 50.0]))}}
     finish_flags(rng, spec)
     return spec
@@ -1666,7 +2154,11 @@ def rz_document(rng, size=None):
                 f = round(rng.uniform(.2, .9), 6)
                 hot = rng.random() < .5
                 Ts = rng.uniform(100, 500) if hot else 26.85
-                seg = {"shape": "RadialSegment", "inner_radius": rb[ri], "outer_radius": rb[ri + 1], "inner_theta": tb[ti], "outer_theta": tb[ti + 1], "height": h}
+                if rng.random() < .35:  # the same volume element stated by its differentials
+                    seg = {"shape": "DifferentialRadialSegment", "inner_radius": rb[ri], "radius_differential": round(rb[ri + 1] - rb[ri], 6), "inner_axial": zb[k], "height": h,
+                           "inner_theta": tb[ti], "azimuthal_differential": tb[ti + 1] - tb[ti]}
+                else:
+                    seg = {"shape": "RadialSegment", "inner_radius": rb[ri], "outer_radius": rb[ri + 1], "inner_theta": tb[ti], "outer_theta": tb[ti + 1], "height": h}
                 fm = rng.choice(["UZr", "UO2"]) if kind == "fuel" else rng.choice(["HT9", "Zr", "Graphite"])
                 comps = [dict({"name": kind, "material": fm, "Tinput": 26.85, "Thot": Ts}, mult=f, **seg),
                          dict({"name": "coolant", "material": rng.choice(["Sodium", "Lead"]), "Tinput": 400.0, "Thot": 400.0}, mult=round(1.0 - f, 6), **seg)]
@@ -1680,7 +2172,7 @@ def rz_document(rng, size=None):
             uniq += 1
             aname = _name(rng, "fuel" if any("fuel" in b for b in bnames) else "reflector", uniq)
             sp = "rz_%d_%d" % (ti, ri)
-            a = {"specifier": sp, "blocks": bnames, "height": list(heights), "axial mesh points": [rng.randint(1, 5) for _ in heights], "xs types": [rng.choice("AB") for _ in heights],
+            a = {"specifier": sp, "blocks": bnames, "height": list(heights), "axial mesh points": [rng.randint(1, 5) for _ in heights], "xs types": [rng.choice(["A", "B", "b", "AB"]) for _ in heights],
                  "radial mesh points": rng.randint(1, 3), "azimuthal mesh points": rng.randint(1, 7)}
             add_material_mods(rng, spec, a)
             spec["assemblies"][aname] = a
@@ -1955,7 +2447,7 @@ def plant(rng, kind):
     """-> (spec, text) of a document that is valid except for one planted inconsistency, or None if this draw cannot host it."""
     import copy
 
-    for attempt in range(30):
+    for attempt in range(60):
         spec = hex_document(rng, size=rng.choice([0, 1, 2])) if rng.random() < .7 else cart_document(rng, size=rng.choice([1, 2, 3]))
         g = spec["grids"]["core"]
         designs = list(spec["assemblies"].items())
@@ -2151,18 +2643,56 @@ def _flags_insufficient(spec, names):
     return any(n not in allowed for n in needed)
 
 
+PROGRAMMING_ERRORS = (AttributeError, TypeError, IndexError, NameError, UnboundLocalError, ZeroDivisionError, RecursionError, AssertionError, NotImplementedError)
+
+
+def refusal_class(e):
+    """How a document was refused.  'validation': an exception that armi (or the yamlize / voluptuous schema layer it drives) raised with
+    an explicit `raise` statement - InputError, ValueError, YamlizingError, the ArithmeticError of the negative-area check, a KeyError
+    with a message ...: 'refused with an error'.  Otherwise the exception fell out of a failing operation (a dict lookup, an attribute of
+    None, an index): 'programming-error' for the classes that never describe an input (AttributeError, TypeError, IndexError ...),
+    'lookup' for a bare KeyError / LookupError naming the missing thing (observed today for an unknown assembly specifier: counted, not a violation)."""
+    import os
+    import traceback
+
+    tb = traceback.extract_tb(e.__traceback__)
+    last = tb[-1] if tb else None
+    raised = False
+    if last is not None:
+        fn = os.path.realpath(last.filename)
+        line = (last.line or "").strip()
+        in_lib = "/armi/" in fn or "/yamlize/" in fn or "/voluptuous/" in fn
+        raised = in_lib and (line.startswith("raise ") or line == "raise")
+    if raised and not isinstance(e, PROGRAMMING_ERRORS):
+        return "validation"
+    if isinstance(e, PROGRAMMING_ERRORS):
+        return "programming-error"
+    return "lookup" if isinstance(e, LookupError) else "other"
+
+
 def judge_invalid(rec, rng, i, kind):
     got = plant(rng, kind)
     if got is None:
-        rec.skip("planted inconsistency could not be hosted by 30 random documents: " + kind)
+        rec.skip("planted inconsistency could not be hosted by 60 random documents: " + kind)
         return None
     spec, text = got
     try:
         r, bp, _ = build(spec, text)
     except Exception as e:
-        rec.hit("invalid.refused")
-        rec.reject("refused %s: %s" % (kind, type(e).__name__))
-        return {"kind": kind, "outcome": type(e).__name__}
+        how = refusal_class(e)
+        if how == "validation":
+            rec.hit("invalid.refused")
+            rec.reject("refused %s: %s" % (kind, type(e).__name__))
+            return {"kind": kind, "outcome": type(e).__name__}
+        # not an error armi raised about the input: the document was stopped by a failing operation somewhere inside
+        rec.hit("invalid.refused-by-crash")
+        rec.add("invalid.refused-by-crash/%s/%s" % (kind, type(e).__name__))
+        rec.reject("refused by a crash, not by a validation error, %s: %s" % (kind, type(e).__name__))
+        if how == "programming-error":
+            rec.violation("refused-by-crash/%s/%s" % (kind, type(e).__name__),
+                          "a document with a planted inconsistency (%s) was not refused with an error about the input: construction died with %s: %s" % (kind, type(e).__name__, str(e)[:300]),
+                          doc_witness(spec, text, planted=kind, traceback="".join(__import__("traceback").format_exception(type(e), e, e.__traceback__)[-6:])[-2500:]))
+        return {"kind": kind, "outcome": "crash:" + type(e).__name__}
     rec.hit("invalid.accepted")
     rec.violation("accepted-inconsistent/" + kind, "a document with a planted inconsistency (%s) was built without any error" % kind, doc_witness(spec, text, planted=kind))
     return {"kind": kind, "outcome": "accepted"}
@@ -2184,8 +2714,9 @@ def plan(tier, seed):
         out.append({"name": "maps", "kind": "maps", "n": 900})
     else:
         out += [{"name": "maps%d" % k, "kind": "maps", "n": 3000} for k in range(3)]
-    out.append({"name": "invalid0", "kind": "invalid", "n": 26 if q else 320, "offset": 0})
-    out.append({"name": "invalid1", "kind": "invalid", "n": 26 if q else 320, "offset": 13})
+    out.append({"name": "invalid0", "kind": "invalid", "n": 39 if q else 320, "offset": 0})
+    out.append({"name": "invalid1", "kind": "invalid", "n": 39 if q else 320, "offset": 13})
+    out.append({"name": "shapes", "kind": "shapes", "n": 3 * len(PROBE_SHAPES) if q else 60 * len(PROBE_SHAPES)})
     return out
 
 
@@ -2215,8 +2746,35 @@ def run_shard(spec, rec):
         run_docs(spec, rec)
     elif kind == "maps":
         run_maps(spec, rec)
+    elif kind == "shapes":
+        run_shapes(spec, rec)
     else:
         run_invalid(spec, rec)
+
+
+def run_shapes(sh, rec):
+    for i in range(sh["n"]):
+        rng = random.Random("%s:%d" % (sh["rng"], i))
+        shape = PROBE_SHAPES[i % len(PROBE_SHAPES)]
+        spec = shape_probe_document(rng, shape)
+        text = render(spec)
+        rec.hit("shape-probe")
+        try:
+            r, bp, _ = build(spec, text)
+        except Exception as e:
+            # a regular document naming a registered shape class: a refusal is a verdict, keyed by the shape (the mechanism), not by the site
+            rec.crash("build-shape/%s" % shape, e, doc_witness(spec, text, case=i, shape=shape))
+            rec.case(["shape-probe", shape, "crash", type(e).__name__], nontrivial=True)
+            continue
+        rec.hit("shape-probe.built")
+        try:
+            compare_reactor(rec, spec, r, text)
+            check_inputs_unchanged(rec, spec, bp, text)
+        except Exception as e:
+            rec.crash("compare/shape-probe/%s" % shape, e, doc_witness(spec, text, case=i))
+            continue
+        rec.add("documents:shape-probe/%s" % shape)
+        rec.case(["shape-probe", layout_signature(spec)], nontrivial=nontrivial(spec), sample={"shape": shape, "yaml_head": text[-1800:]} if i < 1 else None)
 
 
 def run_docs(sh, rec):
